@@ -104,10 +104,22 @@ impl Ids {
 }
 
 /// Apply the builder calls; branch targets are set afterwards.
+thread_local! {
+    /// 0: Expression::new(); 1: the expression starts as Expression::raw(empty); 2: it starts as
+    /// Expression::raw([DW_OP_nop]), which stands for the leading B::Simple(NOP) of `bs`.
+    static RAW_PREFIX: std::cell::Cell<u8> = const { std::cell::Cell::new(0) };
+}
+
 fn build(bs: &[B], ids: Option<&Ids>) -> Expression {
-    let mut e = Expression::new();
+    // nested expressions (entry_value) are built by recursive calls: they start plainly
+    let prefix = RAW_PREFIX.with(|p| p.replace(0));
+    let mut e = match prefix {
+        1 => Expression::raw(Vec::new()),
+        2 => Expression::raw(vec![NOP]),
+        _ => Expression::new(),
+    };
     let mut branches = vec![];
-    for b in bs {
+    for b in bs.iter().skip(if prefix == 2 { 1 } else { 0 }) {
         fn i<'x>(ids: Option<&'x Ids>) -> &'x Ids {
             ids.expect("reference without a unit")
         }
@@ -156,6 +168,7 @@ fn build(bs: &[B], ids: Option<&Ids>) -> Expression {
     for (ix, t) in branches {
         e.set_target(ix, t);
     }
+    RAW_PREFIX.with(|p| p.set(prefix));
     e
 }
 
@@ -402,7 +415,7 @@ thread_local! {
     /// Creation order of the entries around the referring entry (see `host_unit`).
     static LAYOUT: std::cell::Cell<u8> = const { std::cell::Cell::new(0) };
 }
-const LAYOUTS: [&str; 6] = ["base1,before,subject,after,base2", "before,subject,after,base1,base2", "base1,base2,before,subject,after", "before,base2,subject,base1,after", "before{subject},after,base2,base1", "before,subject,base1,after,base2"];
+const LAYOUTS: [&str; 8] = ["base1,before,subject,after,base2", "before,subject,after,base1,base2", "base1,base2,before,subject,after", "before,base2,subject,base1,after", "before{subject},after,base2,base1", "before,subject,base1,after,base2", "root with a 200-byte attribute; base1,before,subject,after,base2", "root with a 200-byte attribute; before,subject,after,base1,base2"];
 
 fn host_unit(ctx: &mut Ctx, cfg: &Cfg, bs: &[B], host: Host, evaluate: bool) {
     let case = || format!("{} host {:?} entries created as [{}] built {}", cfg.name(), host, LAYOUTS[LAYOUT.with(|l| l.get()) as usize], render_b(bs));
@@ -419,8 +432,15 @@ fn host_unit(ctx: &mut Ctx, cfg: &Cfg, bs: &[B], host: Host, evaluate: bool) {
             2 => b"12vsc",
             3 => b"v2s1c",
             4 => b"vSc21",
+            6 => b"1vs2c",
+            7 => b"vsc12",
             _ => b"vs1c2",
         };
+        if LAYOUT.with(|l| l.get()) >= 6 {
+            // a long root attribute: every entry, base types included, lies beyond unit offset 128
+            // (references to base types then need a two-byte ULEB128)
+            unit.get_mut(root).set(gimli::DW_AT_producer, AttributeValue::String(vec![b'p'; 200]));
+        }
         let (mut b1, mut b2, mut t1, mut t2, mut subj) = (root, root, root, root, root);
         for &k in order {
             match k {
@@ -918,7 +938,7 @@ fn layouts_sub() -> Sub {
     Sub::new(
         "entry-creation-orders",
         (1 + n) * ncfg * nlay,
-        &format!("every sequence of 1 or 2 builder calls over the {}-symbol alphabet x version x format x address size x 5 further creation orders of the unit's entries (base types all after the referring entry, all before it, interleaved the other way round, the referring entry nested in a child, base type between the referring entry and the later target), hosted in a DIE attribute and in a location list: the writer moves base types to the front, so no reference may be refused as a forward reference", n),
+        &format!("every sequence of 1 or 2 builder calls over the {}-symbol alphabet x version x format x address size x 7 further layouts of the unit (base types all after the referring entry, all before it, interleaved the other way round, the referring entry nested in a child, base type between the referring entry and the later target, and two with a 200-byte root attribute that puts every base type beyond unit offset 128), hosted in a DIE attribute and in a location list: the writer moves base types to the front, so no reference may be refused as a forward reference", n),
         move |ctx, i| {
             let cfg = cfgs[(i % ncfg) as usize];
             let lay = 1 + ((i / ncfg) % nlay) as u8;
@@ -939,6 +959,44 @@ fn layouts_sub() -> Sub {
                 }
             }
             LAYOUT.with(|l| l.set(0));
+        },
+    )
+}
+
+/// Expressions that start as a raw bytecode chunk and are continued with builder calls.
+fn raw_prefix_sub() -> Sub {
+    let cfgs = c15_cfgs();
+    let n = builder_alphabet(&cfgs[0]).len() as u64;
+    let ncfg = cfgs.len() as u64;
+    Sub::new(
+        "raw-chunk-then-builder-calls",
+        (1 + n) * ncfg * 2,
+        &format!("Expression::raw(chunk) for chunk in {{empty, [DW_OP_nop]}} continued with every sequence of 0..=2 builder calls over the {}-symbol alphabet x version x format x address size, hosted in a DIE attribute and in a location list: predicted size = emitted size, what follows the expression reads back intact, operations and evaluation as built", n),
+        move |ctx, i| {
+            let cfg = cfgs[(i % ncfg) as usize];
+            let prefix = 1 + ((i / ncfg) % 2) as u8;
+            let first = (i / ncfg / 2) as usize;
+            let al = builder_alphabet(&cfg);
+            let lead: Vec<B> = if prefix == 2 { vec![B::Simple(NOP)] } else { vec![] };
+            RAW_PREFIX.with(|p| p.set(prefix));
+            let mut run = |tail: Vec<B>| {
+                let mut bs = lead.clone();
+                bs.extend(tail);
+                host_unit(ctx, &cfg, &bs, Host::Die, true);
+                host_unit(ctx, &cfg, &bs, Host::LocList, false);
+            };
+            if first == 0 {
+                run(vec![]);
+                for x in &al {
+                    run(vec![x.clone()]);
+                }
+            } else {
+                for x in &al {
+                    run(vec![al[first - 1].clone(), x.clone()]);
+                }
+            }
+            RAW_PREFIX.with(|p| p.set(0));
+            ctx.outcome("raw-prefix:checked");
         },
     )
 }
@@ -1182,6 +1240,7 @@ pub fn def(tier: Tier) -> CheckDef {
     }
     subs.push(singles_sub());
     subs.push(layouts_sub());
+    subs.push(raw_prefix_sub());
     subs.push(branch_sub(tier));
     subs.push(far_branch_sub());
     subs.push(symbolic_sub());
